@@ -9,9 +9,11 @@ import (
 	"bytes"
 	"encoding/json"
 	"fmt"
+	"net"
 	"os"
 	"regexp"
 	"sort"
+	"strconv"
 	"strings"
 	"sync"
 	"syscall"
@@ -146,6 +148,12 @@ func (prop) Child(b core.Batch, o *core.Obs) {
 		cc    *lab.CliConn
 	}
 	var park []parked
+	var silentPeers []net.Conn // data connections of ftp sessions whose peer never says anything; kept open to the end
+	defer func() {
+		for _, c := range silentPeers {
+			c.Close()
+		}
+	}()
 	var parkedAt time.Time
 	history := func(from int, silent bool) {
 		for k := from; k < from+p.N; k++ {
@@ -209,6 +217,31 @@ func (prop) Child(b core.Batch, o *core.Obs) {
 						break
 					}
 					cl.WaitIdle(100 * time.Millisecond)
+				}
+				ob.Replies += len(cl.Received())
+				cl.Close()
+			}
+		}
+		if s.Type == "ftp" {
+			// a data connection whose peer connects and then says nothing (no TLS hello, no byte), with an upload and
+			// with a listing waiting on it; the client leaves the control connection, the silent peer stays
+			for i, cmd := range []string{"STOR s.txt", "LIST"} {
+				cc := w.Srv.L.DialTCP(lab.TCPAddr("10.0.0.1", s.Port), lab.TCPAddr("203.0.113.82", 7400+from+i))
+				cl := lab.NewClient(cc)
+				for _, c := range []string{"USER anonymous", "PASS anonymous", "PASV"} {
+					if cl.Send([]byte(c+"\r\n"), time.Second) != nil {
+						break
+					}
+					cl.WaitIdle(100 * time.Millisecond)
+				}
+				if m := regexp.MustCompile(`\((\d+),(\d+),(\d+),(\d+),(\d+),(\d+)\)`).FindSubmatch(cl.Received()); m != nil {
+					p1, _ := strconv.Atoi(string(m[5]))
+					p2, _ := strconv.Atoi(string(m[6]))
+					if dc, err := net.DialTimeout("tcp", fmt.Sprintf("127.0.0.1:%d", p1*256+p2), 2*time.Second); err == nil {
+						silentPeers = append(silentPeers, dc)
+					}
+					cl.Send([]byte(cmd+"\r\n"), time.Second)
+					cl.WaitIdle(300 * time.Millisecond)
 				}
 				ob.Replies += len(cl.Received())
 				cl.Close()
@@ -290,9 +323,11 @@ func (prop) Child(b core.Batch, o *core.Obs) {
 	slow.Wait()
 	time.Sleep(grace)
 	ob.C1 = takeCensus(true)
+	ob.C1.FDs["socket"] -= len(silentPeers) // the harness's own ends of the silent data connections, still held
 	history(p.N, false)
 	time.Sleep(grace)
 	ob.C2 = takeCensus(true)
+	ob.C2.FDs["socket"] -= len(silentPeers)
 	if len(park) > 0 {
 		// the silent connections have had at least 85 s; give them up to 95 s
 		for time.Since(parkedAt) < 95*time.Second {
